@@ -329,6 +329,18 @@ func boundaryDirectories() []*directory {
 	}}
 	d2.fill(nil, func(h int) []uint32 { return []uint32{0, 500, 1000, 1<<32 - 1} }, func(h int) []uint32 { return []uint32{544, 555, 583} }, []uint32{4242})
 	out = append(out, d2)
+	// SIDs whose octets begin or end like text does: a last sub-authority whose top octet is a
+	// blank, tab, line feed or NUL (the last octet of the attribute value), a first sub-authority
+	// whose low octet is one; binary attribute values are not text
+	d3 := &directory{tag: "sid-octets-like-white-space", heads: []dirHead{
+		mkHead("DC=ws,DC=example", 5, []uint32{21, 111111111, 222222222, 0x20000000 | 3333}, false),
+		mkHead("DC=tab,DC=ws,DC=example", 5, []uint32{21, 0x09, 5, 0x09000001}, true),
+		mkHead("DC=lf,DC=ws,DC=example", 5, []uint32{21, 7, 8, 0x0A0D0A0D}, false),
+		mkHead("DC=nul,DC=ws,DC=example", 5, []uint32{21, 7, 9, 0x00000005}, true),
+		mkHead("DC=sp,DC=ws,DC=example", 0x20, []uint32{0x20202020, 0x20202020}, false),
+	}}
+	d3.fill(nil, func(h int) []uint32 { return []uint32{500, 1104, 0x20000000, 0x0A000001, 0x20} }, func(h int) []uint32 { return []uint32{544} }, []uint32{4242})
+	out = append(out, d3)
 	return out
 }
 
